@@ -927,3 +927,7 @@ Proof.
   intros Hne Hc. destruct (Z.eqb_spec (get2 (- 1)%Z f2t' 1 f) c) as [He|Hn]; [exact He|].
   destruct Hc as [Hc|Hc]; [now symmetry | congruence].
 Qed.
+
+(* the optional flag comes back for every class default and every value *)
+Lemma opt_flag_roundtrip default v : opt_flag_load default (opt_flag_save default v) = v.
+Proof. unfold opt_flag_save, opt_flag_load. destruct v, default; reflexivity. Qed.
